@@ -2,7 +2,7 @@
  *
  * Creates the first free "$C15_REPORT_DIR/r<N>" (O_EXCL: the file is the spawn marker and
  * exists before anything else happens), then writes what it received, hex-encoded:
- *   ARGC <n> / ARG <hex> per argv entry (argv[0] first) / CWD <hex> / ENV <hex> per environ
+ *   ARGC <n> / ARG <hex> per argv entry (argv[0] first) / EXE <hex of readlink(/proc/self/exe)> / CWD <hex> / ENV <hex> per environ
  *   entry in environ order / STDIN <hex of everything read from fd 0 until EOF> / DONE
  * Empty byte strings are written as "-".  Exit status: $C15_EXIT or 0.
  * No shell, no libc locale handling, no interpretation of any byte. */
@@ -42,6 +42,12 @@ int main(int argc, char **argv) {
     if (!f) return 98;
     fprintf(f, "ARGC %d\n", argc);
     for (int i = 0; i < argc; i++) put_hex(f, "ARG", (unsigned char *)argv[i], strlen(argv[i]));
+    {   /* which file is really running (the kernel's view, symlinks resolved) */
+        static char exe[8192];
+        ssize_t n = readlink("/proc/self/exe", exe, sizeof exe - 1);
+        if (n > 0) put_hex(f, "EXE", (unsigned char *)exe, (size_t)n);
+        else fputs("EXE !\n", f);
+    }
     char *cwd = getcwd(NULL, 0);
     if (cwd) put_hex(f, "CWD", (unsigned char *)cwd, strlen(cwd));
     else fputs("CWD !\n", f);
